@@ -27,6 +27,10 @@ def opt(o):
 
 
 def make_tube(t, times):
+    if t.get("tjit"):
+        # this tube's own time array equals the others' up to round-off (interior times moved by an ulp or two)
+        times = np.array(times, dtype=float)
+        times[1:-1] = times[1:-1] * (1.0 + fl(t["tjit"]))
     tube = receiver.Tube(fl(t["r"]), fl(t["t"]), fl(t["h"]), t["nr"], t["nt"], t["nz"], T0=fl(t["T0"]))
     tube.set_times(times)
     if t["dim"] == 2:
